@@ -655,9 +655,10 @@ class ExcelModel:
         from collections import Counter
         mod, dsp = {}, self.dsp
         f_nodes, d_nodes, dmap = dsp.function_nodes, dsp.data_nodes, dsp.dmap
-        skip_nodes = {
+        skip_nodes = {  # Inverse links (range -> cells, name -> reference).
             k for k, node in f_nodes.items()
-            if isinstance(node['function'], InvRangesAssembler)
+            if isinstance(node['function'], InvRangesAssembler) or
+            node['function'] is sh.bypass
         }
 
         cycles = list(simple_cycles(dmap.succ, skip_nodes=skip_nodes))
